@@ -108,6 +108,8 @@ def build(proto):
         'xml': (XmlDocument(validator='soft'), XmlDocument()),
         'soap11': (Soap11(validator='soft'), Soap11()),
         'http-json': (HttpRpc(validator='soft'), JsonDocument()),
+        'http-soap11': (HttpRpc(validator='soft'), Soap11()),
+        'soap11-json': (Soap11(validator='soft'), JsonDocument()),
     }[proto]
     app = Application([Svc, Sibling], 'tns', in_protocol=inp, out_protocol=outp)
     for ev in APP_EVENTS:
@@ -134,9 +136,20 @@ def get_app(proto):
 SOAP_ENV = 'http://schemas.xmlsoap.org/soap/envelope/'
 
 
+def in_of(proto):
+    return {'http-json': 'http', 'http-soap11': 'http', 'soap11-json': 'soap11'}.get(proto, proto)
+
+
+def out_of(proto):
+    return {'http-json': 'json', 'http-soap11': 'soap11', 'soap11-json': 'json'}.get(proto, proto)
+
+
 def request_bytes(proto, kind):
     """(body bytes, extra wsgi env) for the request kinds"""
     env = {}
+    proto = in_of(proto)
+    if proto == 'soap11':
+        env['CONTENT_TYPE'] = 'text/xml'
     if proto == 'json':
         body = {'valid': b'{"work": {"a": 5, "s": "x"}}', 'malformed': b'{"work": {"a": 5, ',
                 'empty': b'', 'wrong_root': b'[1, 2]', 'unknown_method': b'{"nope": {"a": 5}}',
@@ -161,7 +174,7 @@ def request_bytes(proto, kind):
                 'invalid_arg': envl(b'<small xmlns="tns"><a>77</a></small>'),
                 'wrong_kind': envl(b'<work xmlns="tns"><a>abc</a><s>x</s></work>'),
                 'bad_utf8': envl(b'<work xmlns="tns"><a>5</a><s>\xff\xfe</s></work>')}[kind]
-    else:   # http-json: arguments in the query string
+    else:   # HttpRpc: arguments in the query string
         body = b''
         path, qs = {'valid': ('/work', 'a=5&s=x'), 'malformed': ('/work', 'a=%zz&s'), 'empty': ('/', ''),
                     'wrong_root': ('/work/', ''), 'unknown_method': ('/nope', 'a=5'),
@@ -220,7 +233,7 @@ def run_scenario(sx, proto, transport):
     body, env = request_bytes(proto, req)
     rec = Record()
     if transport == 'server':
-        if proto == 'http-json':
+        if in_of(proto) == 'http':
             sx.outside('HttpRpc needs an http transport')
         _run_server(app, body, env, rec)
     else:
@@ -293,8 +306,9 @@ def _run_wsgi(app, body, env, rec, chunked):
 
 def parse_response(proto, body):
     """reference decoder of the response: ('fault', code, string, detail) | ('ok', value) | ('unparsed', body)"""
+    proto = out_of(proto)
     try:
-        if proto in ('json', 'http-json'):
+        if proto == 'json':
             d = _json.loads(body.decode('utf8'))
             if isinstance(d, dict) and 'faultcode' in d:
                 return ('fault', d.get('faultcode'), d.get('faultstring'), d.get('detail'))
